@@ -187,7 +187,9 @@ SPEC = dict(
     gen=gen_force_params,
     n=dict(quick=250, thorough=20000),
     rtol=0.0, atol=0.0,
-    rule="case 0 = the F4 history; then n random multibody systems (1-3 bodies, 1-2 elements of a subject force type with "
+    rule="case 0 = the F4 history; then 78 directed histories (realize(Acceleration) -> exactly one public State-level setter / "
+         "enable / disable -> realize(Acceleration), one per force type and setter, keys <Force>.<setter>.param_after_realize.history, "
+         "zdot under ....zdot.history); then n random multibody systems (1-3 bodies, 1-2 elements of a subject force type with "
          "state parameters + background elements + Custom probe forces + optional Force::Gravity) with random histories of "
          "8-25 operations from VERIF_SEED; records = operations; at `check` records udot, body/mobility forces, PE, KE are "
          "compared with a freshly created State (P); O lines (stage, gravity cache validity / evaluations, probe call counts, "
